@@ -11,7 +11,9 @@ TECHNIQUE = ('partial evaluation of the template-selecting methods of PyrexTypes
              '(concrete strings and tables, identity-preserving unknowns), compared as sets with the sections, Tempita variables, element-type placeholders and '
              '@cname names of CppConvert.pyx / CConvert.pyx; cdef-extern helper declarations compared with the C prototypes of the utility catalogue / CPython headers; '
              'DICT: abstract interpretation of the expanded dict -> struct/union converter over the complete partition of mappings (member keys present x other keys); '
-             'ENC: per preprocessor configuration path walk of the str -> char* encoder with an ASCII-witness typestate (guard dominance / count-equality exit)')
+             'ENC: per preprocessor configuration path walk of the str -> char* encoder with an ASCII-witness typestate (guard dominance / count-equality exit); '
+             'SHAPE: symbolic interpretation of every container / string / array conversion template (loops run on a generic element, index or iterator position; effects recorded per loop) against the '
+             'specification of the conversion, carray.from_py interpreted for lengths 1..3 x 0..4 items x with/without len(); OUTLEN / NEGCHK: finite-state dataflow over the CFG of the TypeConversion.c helpers')
 DECIDES = ('(TAB) for every key of builtin_cpp_conversions and cpp_string_conversions, create_from_py_utility_code and create_to_py_utility_code load an existing '
            '<cls>.from_py / <cls>.to_py section of CppConvert.pyx, and the element-type placeholders the section uses (X, Y ...) are exactly the ones supplied for the '
            "table's template count; (CTX) at every CythonUtilityCode.load site for CppConvert.pyx / CConvert.pyx the Tempita variables read by the section are keys of the "
@@ -24,8 +26,12 @@ DECIDES = ('(TAB) for every key of builtin_cpp_conversions and cpp_string_conver
            '(ENC) in every configuration (CPython / limited API old and new x c_string_encoding ascii / utf8) each non-NULL return of __Pyx_PyUnicode_AsStringAndSize returns a '
            'UTF-8 buffer of the argument with *length stored on the path, a character count serves as byte length only under an ASCII witness, in the ascii configuration '
            'the return is dominated by a positive PyUnicode_IS_ASCII guard or by the exit taken when character count != byte count, and '
-           '__Pyx_PyUnicode_FromStringAndSize decodes with the decoder of the same encoding flag.')
-NOT_DECIDED = ('element-wise round trip and error behaviour of the generated C++ container conversion functions (type checks, overflow, NUL bytes); value conversion of the individual struct/union fields; '
+           '__Pyx_PyUnicode_FromStringAndSize decodes with the decoder of the same encoding flag. '
+           '(SHAPE) every element of the source is converted exactly once with the cast to its element type (vector / list / set .from_py), dict items arrive as (key -> first, value -> second) and back, '
+           'pair and complex keep their component order, string.from_py passes the length the buffer helper stored, the *.to_py sequence builders allocate size() slots, fill slot I with element I for every I, '
+           'INCREF before the stealing SET_ITEM and range-check size() before the cast; carray.from_py returns 0 exactly for `length` items, stores item i in v[i], never writes v[i >= length], raises IndexError otherwise. '
+           '(OUTLEN) helpers with a Py_ssize_t* out-parameter store the length on every path that returns a buffer. (NEGCHK) results that are negative exactly on failure are tested (true for -1, false for 0) before use.')
+NOT_DECIDED = ('the conversion of the individual ELEMENTS inside the container templates (the `<X>item` casts are generated per element type: type checks, overflow) and of the individual struct/union fields; '
                'that a utf8 configuration never rejects non-ASCII text; whether a required utility section is emitted before use (I8).')
 ASSUMPTIONS = ['a C++ string type has no template parameters (the only execution of the selection methods that does not raise KeyError)',
                'CPython C-API functions returning int/Py_ssize_t signal errors with -1, pointer-returning ones with NULL']
@@ -72,6 +78,12 @@ MUTATIONS = [
     ('Cython/Utility/TypeConversion.c', '`if (likely(PyUnicode_IS_ASCII(o)))` -> `if (unlikely(!PyUnicode_IS_ASCII(o)))` (branches keep their bodies)', 'C33-ENC :ascii:ascii'),
     ('Cython/Utility/TypeConversion.c', 'inner `#if __PYX_DEFAULT_STRING_ENCODING_IS_ASCII` -> `..._IS_UTF8`', 'C33-ENC :ascii:ascii'),
     ('Cython/Utility/TypeConversion.c', '__Pyx_PyUnicode_FromStringAndSize ascii arm: PyUnicode_DecodeASCII -> PyUnicode_DecodeUTF8', 'C33-ENC ...FromStringAndSize:ascii'),
+    # fourth round: stored under /verif/mutants/C33/<name>/ and replayed by the thorough tier
+    ('Cython/Utility/CppConvert.pyx', 'map-from-swapped / map-to-swapped / map-from-no-items / pair-*-swapped / complex-* / set-from-cast-dropped / string-from-no-length / string-to-no-guard', 'C33-SHAPE'),
+    ('Cython/Utility/CppConvert.pyx', 'vector-to-range / vector-to-no-incref / list-to-no-advance', 'C33-SHAPE'),
+    ('Cython/Utility/CConvert.pyx', 'carray-to-tuple-index / carray-from-overrun / carray-from-never-ok', 'C33-SHAPE'),
+    ('Cython/Utility/TypeConversion.c', 'asstring-bytearray-length', 'C33-OUTLEN'),
+    ('Cython/Utility/TypeConversion.c', 'asstring-bytes-error / fromstring-len-negative', 'C33-NEGCHK'),
     # behaviour-preserving, must stay silent
     ('Cython/Utility/CConvert.pyx', 'union: drop `length = 0` after a repeated key / swap the two final messages (`is None` <-> `is not None`: both arms raise ValueError) / final arm `elif repeated_key is not None or length or True:`; '
                                     'struct: try/except replaced by a per-member `if name not in obj: raise ValueError`', None),
@@ -461,4 +473,6 @@ def run(ctx):
     rules.append(sC33.rule_dict(ctx))
     rules.append(sC33.rule_enc(ctx))
     rules.append(sC33.rule_dict_fields(ctx))    # found FromPyUnionUtility assigning result.{{member.cname}}; repaired in /repo (97c0f17ba)
+    # fourth round
+    rules += [sC33.rule_shape(ctx), sC33.rule_outlen(ctx), sC33.rule_negchk(ctx)]
     return rules
